@@ -212,8 +212,20 @@ def chisq_ref(a, b, c, d):
     return Fraction((a + b + c + d) * (a * d - b * c) ** 2, r1 * r2 * c1 * c2)
 
 
+_chdtrc = None
+
+
+def chi2_sf(x, df):
+    """scipy.stats.chi2.sf(x, df) -- which is scipy.special.chdtrc(df, x); imported once, before workers fork
+    (importing scipy.stats itself costs ~8 s per process here)."""
+    global _chdtrc
+    if _chdtrc is None:
+        from scipy.special import chdtrc
+        _chdtrc = chdtrc
+    return float(_chdtrc(df, x))
+
+
 def judge_chisq(t, out, stat):
-    from scipy.stats import chi2
     a, b, c, d = t
     if isinstance(out, dict):
         return [('chisq:raised', f'chiSquaredTest{tuple(t)} raised {out["err"]}')], 'raised'
@@ -228,7 +240,7 @@ def judge_chisq(t, out, stat):
         tag = 'ok'
         if stat is None or not close(stat, ref, rel=1e-12, ab=0.0):
             v.append(('chisq:statistic', f'chiSquaredTest{tuple(t)} computed the statistic {stat!r}, definition gives {float(ref)!r} (= {ref})'))
-        pref = float(chi2.sf(float(ref), 1))
+        pref = chi2_sf(float(ref), 1)
         if not (p == p and 0.0 <= p <= 1.0):
             v.append(('chisq:p_value-outside-[0,1]', f'chiSquaredTest{tuple(t)} p_value = {p!r}'))
         if not close(p, pref):
@@ -325,6 +337,12 @@ def _size(t):
     return (sum(t), tuple(t))
 
 
+def _job(job):
+    if job[0] == 'hwe':
+        return ('hwe',) + _hwe_run(job[1], job[2])
+    return ('tables',) + _table_shard(job[1:])
+
+
 def _table_shard(job):
     cls, n, a_lo, a_hi = job
     text = J.run(cls, MAIN, '', args=['tables', n, a_lo, a_hi])
@@ -361,7 +379,7 @@ def _table_shard(job):
                 viol[sig] = (msg, {'kind': 'table', 't': d['t'], 'm': [m for m, _ in d['ct']]}, 1 + (cur[2] if cur else 0))
             else:
                 viol[sig] = (cur[0], cur[1], cur[2] + 1)
-    return viol, cnt, len(pvals), samples
+    return viol, cnt, pvals, samples
 
 
 def _hwe_run(cls, n):
@@ -396,27 +414,50 @@ def _hwe_run(cls, n):
 
 
 def _selfcheck(cls):
-    """The references and the stand-ins must reproduce the values printed in the engine's own documentation."""
-    out = J.run(cls, MAIN, 't 51 43 22 92 22 23\ng 37 200 85\ng 250 500 250\n', args=['cases'])
-    rows = [json.loads(x) for x in out.splitlines()]
-    doc = rows[0]
-    if not (close(doc['f'][0], 2.1564999740157304e-07) and close(doc['c'][0], 1.4626257805267089e-07) and close(doc['c'][1], 4.959830866807611)
-            and abs(doc['f'][1] - 4.918058171469967) < 1e-3 and abs(doc['f'][2] - 2.5659373368248444) < 1e-3):
-        raise J.HarnessError(f'C37 self-check: sliced engine code does not reproduce the documented example values: {doc}')
-    if not (close(rows[1]['two'][1], 1.1337210383168987e-06) and close(rows[2]['two'][1], 0.9747844394217698) and close(rows[2]['two'][0], 0.5002501250625313)):
-        raise J.HarnessError(f'C37 self-check: Hardy-Weinberg doc examples not reproduced: {rows[1:]}')
-    for r in rows[:1]:
-        vs = _judge_table_line(r)[0]
-        if [s for s, _ in vs if s != 'fisher:p_value-outside-[0,1]']:
-            raise J.HarnessError(f'C37 self-check: the reference rejects the documented example: {vs}')
-    for r in rows[1:]:
-        if judge_hwe(r['g'], r['two'], r['one'])[0]:
-            raise J.HarnessError('C37 self-check: the HWE reference rejects the documented example')
-    # the references must be able to reject: perturbed outputs are flagged
-    bad = dict(doc, f=[doc['f'][0] * (1 + 1e-3), doc['f'][1] * 1.01, doc['f'][2] * 0.99, doc['f'][3] * 1.01])
-    sigs = {s for s, _ in judge_fisher(bad['t'], bad['f'])[0]}
+    """Validate the harness only (never the engine): (1) the stand-in distributions, run directly on the JVM, against
+    exact values; (2) the references against the example values printed in the engine's documentation; (3) that the
+    judges reject perturbed outputs."""
+    from scipy.special import chdtr
+
+    for line in J.run(cls, MAIN, '', args=['standins']).splitlines():
+        d = json.loads(line)
+        if 'hyper' in d:
+            n, m, s, k = d['hyper']
+            lo, hi = max(0, s + m - n), min(m, s)
+            w = {j: math.comb(m, j) * math.comb(n - m, s - j) for j in range(lo, hi + 1)}
+            tot = sum(w.values())
+            pk = Fraction(w.get(k, 0), tot)
+            want = [float(pk), math.log(pk) if pk else -math.inf, float(Fraction(sum(x for j, x in w.items() if j <= k), tot)),
+                    float(Fraction(sum(x for j, x in w.items() if j >= k), tot))]
+            if not all(close(g, e, rel=1e-14, ab=0.0) for g, e in zip(d['v'], want)):
+                raise J.HarnessError(f'C37 self-check: HypergeometricDistribution stand-in wrong at {d}: expected {want}')
+        else:
+            x, df = d['chisq']
+            want = [chi2_sf(x, df), float(chdtr(df, x))]
+            if not all(close(g, e, rel=1e-12, ab=1e-300) for g, e in zip(d['v'], want)):
+                raise J.HarnessError(f'C37 self-check: ChiSquare stand-in wrong at {d}: expected {want}')
+    # documented examples, expressed as engine outputs, must be accepted by the judges ...
+    doc = {'t': [51, 43, 22, 92], 'f': [2.1564999740157304e-07, 4.918058171469967, 2.5659373368248444, 9.677929632035475],
+           'c': [1.4626257805267089e-07, 4.959830866807611], 'x': 27.638186780356982,
+           'ct': [[22, [1.4626257805267089e-07, 4.959830866807611]], [23, [2.1564999740157304e-07, 4.918058171469967]]]}
+    vs = _judge_table_line(doc)[0]
+    if vs:
+        raise J.HarnessError(f'C37 self-check: the references reject the documented example: {vs}')
+    for g, two in (([250, 500, 250], [0.5002501250625313, 0.9747844394217698]), ([37, 200, 85], [0.48964964307448583, 1.1337210383168987e-06])):
+        n, nA, nB, w = hwe_ref(*g)
+        one = float(Fraction(2 * sum(x for k, x in w.items() if k > g[1]) + w[g[1]], 2 * sum(w.values())))
+        vs = judge_hwe(g, two, [two[0], one])[0]
+        if vs:
+            raise J.HarnessError(f'C37 self-check: the HWE reference rejects the documented example: {vs}')
+    # ... and perturbed outputs must be rejected
+    bad = [doc['f'][0] * (1 + 1e-3), doc['f'][1] * 1.01, doc['f'][2] * 0.99, doc['f'][3] * 1.01]
+    sigs = {s for s, _ in judge_fisher(doc['t'], bad)[0]}
     if not {'fisher:p_value', 'fisher:odds_ratio', 'fisher:ci_95_lower', 'fisher:ci_95_upper'} <= sigs:
         raise J.HarnessError(f'C37 self-check: reference failed to reject perturbed Fisher output: {sigs}')
+    if not judge_hwe([37, 200, 85], [0.4896, 1.1337210383168987e-06 * 2], [0.48964964307448583, 0.5])[0]:
+        raise J.HarnessError('C37 self-check: reference failed to reject perturbed HWE output')
+    if not judge_chisq([51, 43, 22, 92], [1.46e-07, 4.9598], 27.6)[0]:
+        raise J.HarnessError('C37 self-check: reference failed to reject perturbed chi-squared output')
 
 
 def check(tier, seed, procs):
@@ -424,17 +465,23 @@ def check(tier, seed, procs):
     _selfcheck(cls)
     ncell = 12 if tier == 'quick' else 20
     ngt = 15 if tier == 'quick' else 30
-    shards = [(str(cls), ncell, a, a) for a in range(ncell + 1)]
-    rows = par.pmap(_table_shard, par.rotate(shards, seed), min(procs, 8 if tier == 'quick' else procs), chunksize=1)
-    hv, hcnt, hpv, hsamples = _hwe_run(cls, ngt)
+    chi2_sf(1.0, 1)  # import scipy.special before forking
+    if abs(chi2_sf(27.638186780356982, 1) - math.erfc(math.sqrt(27.638186780356982 / 2))) > 1e-18:
+        raise J.HarnessError('C37 self-check: scipy chi-square tail disagrees with erfc')
+    nshard = max(1, min(procs - 1, ncell + 1, 8 if tier == 'quick' else 15))
+    cuts = [round(i * (ncell + 1) / nshard) for i in range(nshard + 1)]
+    jobs = [('hwe', str(cls), ngt)] + par.rotate([('tables', str(cls), ncell, cuts[i], cuts[i + 1] - 1) for i in range(nshard)], seed)
+    res = par.pmap(_job, jobs, min(procs, len(jobs)), chunksize=1)
+    rows = [r[1:] for r in res if r[0] == 'tables']
+    (hv, hcnt, hpv, hsamples), = [r[1:] for r in res if r[0] == 'hwe']
     viol = {}
     cnt = {}
-    n_pv = 0
+    all_pv = set()
     samples = []
     for v, c, npv, s in rows:
         for k, x in c.items():
             cnt[k] = cnt.get(k, 0) + x
-        n_pv += npv
+        all_pv |= npv
         samples += s
         for sig, (msg, rep, k) in v.items():
             cur = viol.get(sig)
@@ -459,7 +506,7 @@ def check(tier, seed, procs):
         'bounds': f'2x2 cells <= {ncell}; genotype counts <= {ngt}; min_cell_count on both sides of each dispatch boundary',
         'tables': cnt['tables'],
         'tables_degenerate_margins_engine_returns_nan': cnt['fisher_degenerate'],
-        'fisher_distinct_p_values_per_shard_sum': n_pv,
+        'fisher_distinct_p_values': len(all_pv),
         'fisher_p_below_0.05': cnt['fisher_p_lt_0.05'],
         'fisher_interior_odds_ratio_root_found_by_search': cnt['or_interior'],
         'fisher_tables_where_R_tie_tolerance_matters': cnt['fisher_near_tie'],
@@ -491,7 +538,7 @@ def check(tier, seed, procs):
             'scala.collection.compat LazyList is replaced by the Scala 2.13 standard LazyList',
             'odds ratio and confidence bounds are accepted within the root-finder tolerance the engine documents (1.22e-4 on the search variable)',
             'tables with an empty row or column: NaN results accepted (the docs say fields may be NaN)',
-            'reference chi-square tail: scipy.stats.chi2.sf',
+            'reference chi-square tail: scipy.special.chdtrc (the function scipy.stats.chi2.sf evaluates)',
         ],
         'vacuous': vac,
     }
